@@ -21,6 +21,15 @@ Theorem C20_conservative : forall io iname g A B o, wf_schemab A = true -> wf_sc
 Proof. intros io iname g A B o HA HB Hu. apply diff_f_conservative; [apply nd_schema_reflect; apply wf_nd_schema|apply wf_nd_schema|apply named_of_no_unnamed]; auto. Qed.
 Print Assumptions C20_conservative.
 
+(* "the database object of that name is treated as absent": without an object filter the filtered comparison is exactly the
+   plain comparison of the database from which every name-rejected object (table of a rejected schema, table, column, index,
+   unique constraint - named or not -, foreign key - named or not) has been removed.  In particular a rejected reflected
+   constraint whose metadata counterpart exists yields the ADD.  For ALL include_name predicates and ALL schema pairs. *)
+Theorem C20_name_absent : forall iname g A B,
+  diff_f (fun _ _ _ => true) iname g (reflect_sqlite A) B = diff g (prune iname (reflect_sqlite A)) B.
+Proof. intros. apply diff_f_name_absent. Qed.
+Print Assumptions C20_name_absent.
+
 Theorem C20_decider_sound : forall i out, check_C20 i out = true -> C20_holds i out.
 Proof. exact check_C20_sound. Qed.
 Print Assumptions C20_decider_sound.
